@@ -20,7 +20,6 @@ OpenMP variant) this module
 Fail closed: any line, declaration, directive or node that is not recognised
 raises Unsupported for that case.
 '''
-import os
 import re
 
 from pv import core
@@ -29,7 +28,6 @@ from pv.export import Exporter, Unsupported
 LAYOUT_UNDF = {1: 6, 2: 5}      # must agree with DMLayouts in LFRicBuiltins.tla
 PAD = 8                         # padding of reproducible-reduction arrays
 
-VARIANTS_PLAIN = ("plain",)
 # ompl  = DynamoOMPParallelLoopTrans
 # omp2  = Dynamo0p3OMPLoopTrans(reprod=False) + OMPParallelTrans
 # omp2r = Dynamo0p3OMPLoopTrans(reprod=True)  + OMPParallelTrans
@@ -107,8 +105,9 @@ def alg_source(cap, margs, style="var"):
 
 # ------------------------------------------------------------- PSy generation
 def make_psy(info, dm, ann, variant):
-    '''The PSy object for (dm, annexed) with the OpenMP variant applied to
-    the built-in's loop.  Returns (psy, invoke, kern).'''
+    '''Generate the PSy layer for (dm, annexed) with the OpenMP variant
+    applied to the built-in's loop.  Returns (generated Fortran text, name of
+    the invoke subroutine, the built-in's schedule node).'''
     from psyclone.psyGen import PSyFactory
     from psyclone.configuration import Config
     from psyclone.domain.lfric import LFRicLoop
@@ -145,16 +144,19 @@ _RE_USE = re.compile(r"^USE %s(, ONLY: .*)?$" % _ID, re.I)
 _DECLS = [
     # (pattern, handler key)
     (re.compile(r"^(REAL|INTEGER)\(KIND=(\w+)\), intent\((in|out|inout)\) :: (.+)$", re.I), "argscalar"),
-    (re.compile(r"^TYPE\((field_type|integer_field_type)\), intent\(in\) :: (.+)$", re.I), "argfield"),
-    (re.compile(r"^TYPE\((field_proxy_type|integer_field_proxy_type)\) (.+)$", re.I), "proxy"),
+    (re.compile(r"^TYPE\(((?:r_(?:solver|tran|bl|phys)_|integer_)?field_type)\), intent\(in\) :: (.+)$", re.I), "argfield"),
+    (re.compile(r"^TYPE\(((?:r_(?:solver|tran|bl|phys)_|integer_)?field_proxy_type)\) (.+)$", re.I), "proxy"),
     (re.compile(r"^TYPE\(scalar_type\) (.+)$", re.I), "gsum"),
     (re.compile(r"^TYPE\(mesh_type\), pointer :: (\w+) => null\(\)$", re.I), "mesh"),
     (re.compile(r"^(REAL|INTEGER)\(KIND=(\w+)\), pointer, dimension\(:\) :: (\w+) => null\(\)$", re.I), "data"),
     (re.compile(r"^(REAL|INTEGER)\(KIND=(\w+)\), allocatable, dimension\(:,:\) :: (\w+)$", re.I), "alloc2"),
     (re.compile(r"^(INTEGER)(?:\(KIND=(\w+)\))? (?!.*::)(.+)$", re.I), "local"),
 ]
-_FIELD_OF_PROXYTYPE = {"field_proxy_type": "field_type",
-                       "integer_field_proxy_type": "integer_field_type"}
+
+
+def _field_of_proxytype(ptype):
+    return ptype.replace("field_proxy_type", "field_type")
+
 
 
 class Item:
@@ -164,6 +166,8 @@ class Item:
         self.dummies = []
         self.scalars = {}     # name -> (ty, intent)
         self.fields = {}      # field dummy -> "r" | "i"
+        self.ftype = {}       # field dummy -> derived type name
+        self.kinds = set()    # kind parameters of the declarations
         self.proxies = {}     # proxy var -> proxy type
         self.proxy_of = {}    # proxy var -> field dummy
         self.data = {}        # data array -> ty
@@ -229,13 +233,16 @@ def itemise(text, invoke_name):
                 break
         else:
             break
+        if key in ("argscalar", "data", "alloc2", "local") and m.group(2):
+            it.kinds.add(m.group(2).lower())
         if key == "argscalar":
             ty = "r" if m.group(1).upper() == "REAL" else "i"
             for n in _names(m.group(4)):
                 it.scalars[n] = (ty, m.group(3).lower())
         elif key == "argfield":
             for n in _names(m.group(2)):
-                it.fields[n] = "r" if m.group(1).lower() == "field_type" else "i"
+                it.fields[n] = "i" if m.group(1).lower() == "integer_field_type" else "r"
+                it.ftype[n] = m.group(1).lower()
         elif key == "proxy":
             for n in _names(m.group(2)):
                 it.proxies[n] = m.group(1).lower()
@@ -260,7 +267,6 @@ def itemise(text, invoke_name):
     # ---- execution part
     ex = body[k:]
     j = 0
-    pending_gsum = None
     while j < len(ex):
         l = ex[j]
         low = l.lower()
@@ -286,8 +292,7 @@ def itemise(text, invoke_name):
         if m:
             p, f = m.group(1), m.group(2)
             if p not in it.proxies or f not in it.fields or \
-                    _FIELD_OF_PROXYTYPE[it.proxies[p]] != \
-                    ("field_type" if it.fields[f] == "r" else "integer_field_type"):
+                    _field_of_proxytype(it.proxies[p]) != it.ftype[f]:
                 raise Unsupported("proxy assignment: " + l)
             it.proxy_of[p] = f
             j += 1
@@ -383,7 +388,12 @@ CONSTS = ("pv_last_dof_owned", "pv_last_dof_annexed", "pv_undf", "pv_nthreads", 
 
 def synthetic_source(it, undf, nthreads):
     kind = {"r": "real(kind=r_def)", "i": "integer(kind=i_def)"}
-    src = ["subroutine pv_case()", "  use constants_mod, only: r_def, i_def"]
+    # exact arithmetic: every real kind is the rationals, every integer kind
+    # the (small) integers; the kind names only have to resolve
+    kinds = sorted(it.kinds | {"r_def", "i_def"})
+    if any(not re.fullmatch(r"[ri]_(def|solver|tran|bl|phys|single|double|um)", k) for k in kinds):
+        raise Unsupported("kind parameter in %s" % kinds)
+    src = ["subroutine pv_case()", "  use constants_mod, only: " + ", ".join(kinds)]
     for n, (ty, _) in it.scalars.items():
         src.append(f"  {kind[ty]} :: {n}")
     for n, ty in it.data.items():
